@@ -84,7 +84,7 @@ func (s *c01Stream) build(rng *rand.Rand) streams.Stream {
 func genC01Stream(rng *rand.Rand, id uint64, kind int) *c01Stream {
 	addrs4 := []string{"10.0.0.1", "10.0.0.2", "192.168.1.1", "172.16.5.4"}
 	addrs6 := []string{"fd00::1", "fd00::2", "2001:db8::1"}
-	s := &c01Stream{ID: id, DataAt: map[int]int{}, Pcap: fmt.Sprintf("cap%d.pcap", rng.Intn(3)), PcapBase: []uint64{0, 1000, 4000, 1 << 32, 1<<32 + 5, 3 << 32, 3<<32 + 1000}[rng.Intn(7)], UDP: rng.Intn(4) == 0}
+	s := &c01Stream{ID: id, DataAt: map[int]int{}, Pcap: fmt.Sprintf("cap%d.pcap", rng.Intn(3)), PcapBase: []uint64{0, 1000, 4000, 1<<32 - 3, 1 << 32, 1<<32 + 5, 3<<32 - 2, 3 << 32, 3<<32 + 1000}[rng.Intn(9)], UDP: rng.Intn(4) == 0}
 	if rng.Intn(3) == 0 {
 		s.Client = netip.AddrPortFrom(netip.MustParseAddr(addrs6[rng.Intn(3)]), uint16(1+rng.Intn(65535))).String()
 		s.Server = netip.AddrPortFrom(netip.MustParseAddr(addrs6[rng.Intn(3)]), uint16(1+rng.Intn(65535))).String()
@@ -389,6 +389,58 @@ func TestC01Standin(t *testing.T) {
 			for _, r := range append(readers, merged...) {
 				r.Close()
 			}
+		}
+		if nh, _ := strconv.Atoi(os.Getenv("C01_MERGE_HOSTS")); nh > 0 {
+			// a merge whose host remapping overflows a host group: the older file shares the server with the
+			// newer one and brings clients of its own, the newer file nearly fills an IPv6 host group
+			tmp := t.TempDir()
+			mk := func(lo, n int, tag byte) (*Reader, []*c01Stream) {
+				w, err := NewWriter(tools.MakeFilename(tmp, "idx"))
+				if err != nil {
+					t.Fatal(err)
+				}
+				var ss []*c01Stream
+				for i := 0; i < n; i++ {
+					s := &c01Stream{ID: uint64(lo + i), DataAt: map[int]int{}, Pcap: "hosts.pcap", PcapBase: uint64(lo + i), Dirs: []bool{true}, Start: t1}
+					s.Client = netip.AddrPortFrom(netip.AddrFrom16([16]byte{0xfd, tag, 0, 0, 0, 0, 0, 0, 0, 0, 0, 0, 0, 0, byte(i >> 8), byte(i)}), 1000).String()
+					s.Server = "[fd00::99]:80"
+					st := s.build(rng)
+					if ok, err := w.AddStream(&st, s.ID); err != nil || !ok {
+						break
+					}
+					ss = append(ss, s)
+				}
+				r, err := w.Finalize()
+				if err != nil {
+					t.Fatal(err)
+				}
+				return r, ss
+			}
+			older, so := mk(0, 200, 1)
+			newer, sn := mk(1000, nh, 2)
+			merged, err := Merge(tmp, []*Reader{older, newer})
+			if err != nil {
+				fail("merge-error", "many hosts", err.Error())
+			} else {
+				for _, s := range append(so, sn...) {
+					var holder *Reader
+					for _, m := range merged {
+						if got, err := m.StreamByID(s.ID); err == nil && got != nil {
+							holder = m
+						}
+					}
+					if holder == nil {
+						fail("merged-lost", s.describe(), "no merged file holds this stream id")
+						continue
+					}
+					checkIndex(holder, []*c01Stream{s}, true)
+				}
+				for _, r := range merged {
+					r.Close()
+				}
+			}
+			older.Close()
+			newer.Close()
 		}
 		rounds = 0
 	}
